@@ -2,7 +2,7 @@
   Oracle for C02.  Reads the harness' stream (harness/cmd/c02) case by case and prints, per case:
 
     G …                       echo of the bond graph line
-    N ok names=ok | N differ <what>      `BMV.Bond.wire` against the netlist extracted from the
+    N ok names=ok | N differ <what> + NE ok|fail   `BMV.Bond.wire` against the netlist extracted from the
                               emitted bondmachine.v — ports, declarations, instance connections,
                               assigns; names included
     H ok | H rejected … | H err …       the emitted file set, elaborated by BMV.Vlog with top `bondmachine`
@@ -77,6 +77,38 @@ def firstDiff (tag : String) (impl model : List String) : Option String :=
 def allDistinct (l : List String) : Bool :=
   let s := sortS l
   (s.zip (s.drop 1)).all fun (a, b) => a != b
+
+/-- identifier → net (inverse of `Net.render`); anything else is a net of an endpoint that exists nowhere -/
+def parseBondName (s : String) : Topology.Bond :=
+  let bad : Topology.Bond := ⟨9, 0, 0⟩
+  let num (x : String) : Option Nat := if x.isEmpty then none else x.toNat?
+  if s.startsWith "i" then
+    match num (s.drop 1).toString with | some k => ⟨0, k, 0⟩ | none => bad
+  else if s.startsWith "o" then
+    match num (s.drop 1).toString with | some k => ⟨1, k, 0⟩ | none => bad
+  else if s.startsWith "p" then
+    let rest := (s.drop 1).toString
+    match rest.splitOn "i" with
+    | [a, b] => match num a, num b with | some p, some k => ⟨2, p, k⟩ | _, _ => bad
+    | _ => match rest.splitOn "o" with
+      | [a, b] => match num a, num b with | some p, some k => ⟨3, p, k⟩ | _, _ => bad
+      | _ => bad
+  else bad
+
+def parseNet (s : String) : Net :=
+  if s = "clk" then .clk
+  else if s = "reset" then .reset
+  else if s.endsWith "_valid" then .valid (parseBondName (s.dropEnd 6).toString)
+  else if s.endsWith "_received" then .recv (parseBondName (s.dropEnd 9).toString)
+  else .data (parseBondName s)
+
+/-- the emitted netlist as a structured one (for the evaluation of `exactB` on the implementation) -/
+def structured (impl : TNetlist) : Netlist :=
+  { ports := impl.ports.map parseNet
+    decls := []
+    insts := impl.insts.map fun (md, _, conns) => { proc := ((md.drop 1).toString.toNat?).getD 999, conns := conns.map parseNet }
+    assigns := impl.assigns.map fun (lhs, kind, names) =>
+      (parseNet lhs, if kind = "id" then .id (parseNet (names.headD "?")) else .and1 (names.map parseNet)) }
 
 def compareNet (impl : TNetlist) (other : Nat) (t : Topo) (rsize : Nat) : String :=
   let nl := wire t rsize
@@ -245,7 +277,12 @@ def endCase (st : St) : List String :=
     if st.netSeen then
       match st.netErr with
       | some e => ["N differ reader: " ++ e]
-      | none => [compareNet { st.tn with decls := st.tn.decls.reverse, insts := st.tn.insts.reverse, assigns := st.tn.assigns.reverse } st.other st.topo st.rsize]
+      | none =>
+        let tn : TNetlist := { st.tn with decls := st.tn.decls.reverse, insts := st.tn.insts.reverse, assigns := st.tn.assigns.reverse }
+        let n := compareNet tn st.other st.topo st.rsize
+        -- the property itself on the emitted netlist: tells a wrong connection from a harmless variation
+        if n.startsWith "N ok" then [n]
+        else [n, if exactB (structured tn) st.topo && tn.assigns.all (fun a => a.2.1 != "other") then "NE ok" else "NE fail"]
     else []
   let simLines :=
     if st.started then
